@@ -487,6 +487,11 @@ def cli_records(ctx, seed, count, variants, rooms_mode=2):
     codes = clirun.eval_cli_cases(ctx, texts)
     for r, c in zip(recs, codes):
         r["code"] = c
+    # text level: the bytes of stdout of every successful --print run against ListingText.print_stage (CorrCliText.check_text)
+    trecs = [r for r in recs if r["variant"].get("print") and r["run"]["rc"] == 0 and isinstance(r["out"], tuple)]
+    tcodes = clirun.eval_text_cases(ctx, [clirun.g_text_case(r) for r in trecs])
+    for r, c in zip(trecs, tcodes):
+        r["text_code"] = c
     CLI_STATE[key] = (metas, recs)
     return metas, recs
 
@@ -578,10 +583,15 @@ def c14_cli(ctx, cases):
         elif r["variant"].get("print") and not (r["code"] & CLI["listing"]):
             w = "C14: the --print listing differs from the listing the assignment array determines (people under a course, " \
                 "instructor flags, count incl. hidden names; Listing.listing evaluated in Coq)"
+        elif r["variant"].get("print") and r.get("text_code") is not None and not (r["text_code"] & 1):
+            w = "C14: the text printed with --print differs from the text the input and the assignment array determine (header, count incl. " \
+                "hidden names, room line, people in input order with instructor flag, hidden names; ListingText.print_stage evaluated in Coq)"
         elif r["variant"]["threads"] == 1 and m["lib"]["result"] and list(r["out"][0]) != m["lib"]["result"]["assignment"]:
             w = "C14: the written assignment differs from the assignment caobab::solve returned for the same instance (1 worker)"
         if r["variant"].get("print") and isinstance(r["listing"], list):
             stats["listings_compared"] += 1
+            if r.get("text_code") is not None:
+                stats["stdout_texts_compared_bytewise"] += 1
             if any(h for h in m["hidden"]):
                 stats["with_hidden_names"] += 1
         if w:
@@ -1372,11 +1382,15 @@ REGISTRY = {
                    extra_fn=c14_cli), allow_axioms=(),
         explanation="C14_partition / C14_flags / C14_count / C14_once about the structural model of format_assignment (Listing.listing): under "
                     "each course exactly the people the array assigns to it, flagged exactly its instructors, count = people + hidden names; "
-                    "C14_array: the array shape follows from C01's HardOK.  The real binary's output file and listing are parsed and checked "
-                    "against the model inside Coq.",
-        trusted_base=["modelled, not verified: src/io.rs format_assignment (structure, not layout), src/io/simple.rs writer (keys observed on "
-                      "the real file); serde_json text encoding trusted; names are generated unique, without newline and without the suffix "
-                      "' (instr)' (the listing is ambiguous otherwise)"],
+                    "C14_array: the array shape follows from C01's HardOK.  C14_text: for every accepted input document the TEXT written by --print "
+                    "(ListingText.print_stage: model of main.rs's print! and io::format_assignment on the instance as the reader model reads it) "
+                    "is the rendering of that structural listing; C14_text_lines: the lines are recoverable from the text.  The real binary's "
+                    "stdout is compared byte for byte with the model text inside Coq (CorrCliText.check_text, incl. hidden names and the room "
+                    "line for --rooms and --rooms-file with split kinds, empty kinds, non-ASCII kind names); additionally the output file and the "
+                    "listing are parsed and checked against the structural model.",
+        trusted_base=["modelled, not verified: src/io.rs format_assignment (exact text, compared bytewise), src/io/simple.rs writer (keys observed on "
+                      "the real file); serde_json text encoding trusted; for the structural comparison names are generated unique, without newline "
+                      "and without the suffix ' (instr)' (the listing is ambiguous otherwise)"],
         assumptions=["participant and course names are unique in the generated instances (needed to parse the listing back)"]),
 
     "C01": dict(mk(spec_c01, streams_node_solve(2), RULE_NS), allow_axioms=(),
